@@ -85,10 +85,64 @@ def gen_history(rng, kind: str, n: int, steps: int) -> list[list[bool]]:
     return h[:steps]
 
 
-def gen_case(rng, idx: int, kind: str) -> dict:
-    n = rng.randint(2, 5)
+def gen_history_b(rng, history, focus, groups, same: bool):
+    """Presence history of the reference run: identical on the focus parameters; on the others it may differ, as long as
+    every GROUP steps at the same moments (some member present in A iff some member present in B)."""
+    if same:
+        return [row[:] for row in history]
+    hb = []
+    for row in history:
+        new = row[:]
+        for g in groups:
+            others = [p for p in g if not focus[p]]
+            if not others:
+                continue
+            if any(row[p] for p in g if focus[p]):
+                for p in others:
+                    new[p] = rng.random() < 0.5
+            elif any(row[p] for p in others):
+                for p in others:
+                    new[p] = rng.random() < 0.5
+                if not any(new[p] for p in others):
+                    new[rng.choice(others)] = True
+            # else: nobody present in this group: stays all-absent
+        hb.append(new)
+    return hb
+
+
+DEFAULTS = {"freq": 1, "dampening": 0.0, "beta3": None, "pdtype": "float64", "fdtype": "float64", "ignored_dims": [],
+            "inv_root_override": 0, "grad_kind": "random", "groups": None, "group_lrs": None, "same_presence_b": False, "target": None}
+
+
+def finish_spec(rng, spec: dict) -> dict:
+    """Derived fields: groups default, reference-run history, comparison mode."""
+    n = len(spec["shapes"])
+    for k, v in DEFAULTS.items():
+        spec.setdefault(k, v)
+    if spec["groups"] is None:
+        spec["groups"] = [list(range(n))]
+    foc = spec.get("focus")
+    if foc is None:
+        foc = [rng.random() < 0.5 for _ in range(n)]
+        if n > 1 and all(foc):
+            foc[rng.randrange(n)] = False
+        if not any(foc):
+            foc[rng.randrange(n)] = True
+        spec["focus"] = foc
+    spec["historyB"] = gen_history_b(rng, spec["history"], spec["focus"], spec["groups"], spec["same_presence_b"])
+    # strict comparison ("a present block moves") only where that is certain
+    spec["strict"] = bool(
+        spec["pdtype"] == "float64" and spec["fdtype"] == "float64" and spec["grad_kind"] in ("random", "noncontig")
+        and spec["freq"] == 1 and spec["lr"] > 0 and not spec["ignored_dims"] and spec["inv_root_override"] == 0
+        and not (spec["graft"] is None and spec["precond"] == "shampoo" and spec["start"] != 1)
+        and not spec["group_lrs"])
+    return spec
+
+
+def gen_case(rng, idx: int, kind: str, **over) -> dict:
+    n = over.pop("n", None) or rng.randint(2, 5)
     base = rng.choice(SHAPES_EQUAL)
-    shapes = [list(base) for _ in range(rng.randint(2, min(3, n)))]
+    shapes = [list(base) for _ in range(rng.randint(2, min(3, n)))] if n >= 2 else [list(base)]
     while len(shapes) < n:
         shapes.append(list(rng.choice(SHAPES_EQUAL)))
     rng.shuffle(shapes)
@@ -97,25 +151,80 @@ def gen_case(rng, idx: int, kind: str) -> dict:
     # without grafting a Shampoo step before the first root computation is a zero step: start at 1 then
     start = 1 if (graft is None and precond == "shampoo") else rng.randint(1, 3)
     momentum = rng.choice((0.0, 0.5))
+    beta1 = rng.choice((0.0, 0.9))
     spec = {
         "idx": idx, "kind": kind, "shapes": shapes,
         "precond": precond, "graft": graft, "start": start,
         "momentum": momentum, "nesterov": bool(momentum and rng.random() < 0.4),
-        "beta1": rng.choice((0.0, 0.9)), "beta2": rng.choice((1.0, 0.99)),
+        "dampening": rng.choice((0.0, 0.0, 0.25)) if momentum else 0.0,
+        "beta1": beta1, "beta2": rng.choice((1.0, 0.99)),
+        "beta3": rng.choice((None, None, 0.5)) if beta1 else None,
         "wd": rng.choice((0.0, 0.0, 0.01)), "decoupled": rng.random() < 0.5,
         "maxdim": rng.choice((2, 3, 3, 4)), "merge": rng.random() < 0.5,
         "bias": rng.random() < 0.5, "lr": rng.choice((0.01, 0.05)),
         "seed": rng.randrange(1 << 30),
+        "same_presence_b": rng.random() < 0.25,
     }
     steps = rng.randint(6, 12)
     spec["history"] = gen_history(rng, kind, n, steps)
-    foc = [rng.random() < 0.5 for _ in range(n)]
-    if all(foc):
-        foc[rng.randrange(n)] = False
-    if not any(foc):
-        foc[rng.randrange(n)] = True
-    spec["focus"] = foc
-    return spec
+    spec.update(over)
+    if "shapes" in over:
+        n2 = len(spec["shapes"])
+        if n2 != n or "history" not in over:
+            spec["history"] = over.get("history") or gen_history(rng, kind, n2, steps)
+    return finish_spec(rng, spec)
+
+
+def gen_targeted(rng, start_idx: int) -> list[dict]:
+    """The input classes the property's quantifier names or plainly allows and that random generation reaches rarely or never
+    (quantifier audit): a few cases each, every run."""
+    out = []
+
+    def add(target, kind="random", **over):
+        out.append(gen_case(rng, start_idx + len(out), kind, target=target, **over))
+
+    T, F = True, False
+    for _ in range(4):   # C04D class: blocks of different tensor order, the lower-index one absent while a later one steps
+        add("mixed_order_absent_predecessor", shapes=[[3], [3, 3], [3], [2, 3, 2]], precond="shampoo", merge=False, maxdim=3,
+            history=[[F, T, F, T], [T, F, T, F], [F, F, T, T], [F, T, T, F], [T, T, F, F], [F, F, F, T], [F, T, F, F], [T, T, T, T]],
+            focus=[F, T, F, T], same_presence_b=False)
+    for k in range(3):   # two equal-shaped parameters whose gradients alternate (same count, different pattern)
+        add("two_equal_params_alternating", kind="alternating", n=2, shapes=[[3, 3], [3, 3]] if k < 2 else [[4, 3], [4, 3]], focus=[T, F] if k % 2 else [F, T])
+    for _ in range(3):   # a parameter whose first gradient arrives after the others have stepped many times
+        hist = [[T, F, T]] * 5 + [[T, T, T], [F, T, F], [T, T, F]]
+        add("late_first_gradient", shapes=[[3, 3], [3, 3], [4, 3]], history=[r[:] for r in hist])
+    for _ in range(2):   # the first steps of the run are all-absent
+        add("all_absent_first_steps", shapes=[[3, 3], [3, 3]], history=[[F, F], [F, F], [T, F], [F, T], [F, F], [T, T]])
+    for k in range(6):   # twin parameter groups (identical hyperparameters / different lr), one group idle while the other steps
+        add("two_param_groups", n=4, groups=[[0, 1], [2, 3]], group_lrs=None if k < 4 else [0.01, 0.05],
+            shapes=[[3, 3], [4, 3], [3, 3], [4, 3]],
+            history=[[T, F, F, F], [F, T, F, F], [F, F, T, T], [F, F, F, F], [T, T, F, T], [F, F, T, F], [T, F, T, F], [F, T, F, T]],
+            focus=[T, F, T, F] if k % 2 else [F, T, F, T])
+    for _ in range(2):
+        add("single_parameter_group", n=1, shapes=[[6, 3]], focus=[T], history=[[T], [F], [F], [T], [T], [F]])
+    for pd, fd in (("float32", "float32"), ("float32", "float64"), ("float64", "float32"), ("bfloat16", "float32"), ("float16", "float32"),
+                   ("bfloat16", "float64"), ("float32", "float32"), ("bfloat16", "float32")):
+        add(f"dtype_{pd}_{fd}", kind=rng.choice(("alternating", "change_every_step", "random")), pdtype=pd, fdtype=fd)
+    for gk in ("zero_param", "zero_block", "zero_param", "zero_block", "tiny", "tiny", "diag", "rank1", "deadrow", "constant"):
+        add(f"grad_{gk}", kind=rng.choice(("alternating", "change_every_step", "random")), grad_kind=gk)
+    for _ in range(3):
+        add("grad_noncontig", kind=rng.choice(("alternating", "change_every_step")), grad_kind="noncontig", merge=False,
+            shapes=[[3, 3], [4, 3], [3, 3], [3, 6]])
+    for fr in (2, 3, 2):
+        add(f"precondition_frequency_{fr}", kind=rng.choice(("alternating", "change_every_step", "random")), freq=fr, start=fr * rng.randint(1, 2))
+    add("start_beyond_history", kind="change_every_step", graft="adam", start=100)
+    add("start_beyond_history", kind="alternating", graft="sgd", start=100)
+    add("lr_zero", kind="change_every_step", lr=0.0)
+    for _ in range(2):
+        add("ignored_dims", kind="change_every_step", ignored_dims=[0], merge=False)
+    for _ in range(2):
+        add("inv_root_override", kind="change_every_step", inv_root_override=2, precond="shampoo")
+    for _ in range(2):   # every element its own block / no blocking at all
+        add("maxdim_1_many_blocks", kind="change_every_step", maxdim=1, shapes=[[2, 3], [2, 3], [3]])
+        add("maxdim_large_single_blocks", kind="change_every_step", maxdim=64)
+    add("size_one_dims", kind="change_every_step", shapes=[[1, 3], [1, 3], [1], [3, 1]])
+    add("size_one_dims", kind="alternating", shapes=[[1], [1], [1, 1]])
+    return out
 
 
 # --------------------------------------------------------------------------------------
